@@ -53,6 +53,12 @@ TAGBYTES = [0x62, 0x74, 0x73, 0x49, 0x6c, 0x6262, 0x7373, 0x4949,
 
 def value_tasks(tier):
     out = [('scalars',), ('keys',), ('deep',), ('onehot',), ('mixed',)]
+    # every nesting depth: up to 32 acceptance is required, beyond it
+    # whatever is accepted must still round-trip (and equal the reference)
+    out += [('depths', 1, 17), ('depths', 17, 33), ('depths', 33, 80),
+            ('depths', 80, 130)]
+    if tier == 'thorough':
+        out += [('depths', 130, 170), ('depths', 170, 201)]
     out += [('tagbytes', i) for i in range(len(TAGBYTES))]
     out += [('homog', k) for k in range(len(HOMOG))]
     max_nodes = 8 if tier == 'thorough' else 5
@@ -98,6 +104,16 @@ def values(task, tier, seed=0):
         for pattern in ('list', 'dict', 'alt', 'alt2'):
             for depth in (16, 31, 32):
                 yield A.deep(depth, pattern)
+    elif kind == 'depths':
+        # every depth (as a top-level value; one more level when placed in an
+        # array or table), scalar / empty-container / string innermost
+        lo, hi = task[1], task[2]
+        for depth in range(lo, hi):
+            for pattern in ('list', 'dict', 'alt', 'alt2'):
+                yield A.deep(depth, pattern)
+                yield A.deep(depth - 1, pattern, [] if depth % 2 else {})
+                if depth % 4 == 0:
+                    yield A.deep(depth, pattern, 'leaf')
     elif kind == 'trees':
         n = task[1]
         for shape in A.trees(n):
